@@ -102,7 +102,10 @@ class FileAdapter(ExternalStateAdapter):
         instance_paths = os.listdir(self.path)
 
         for instance_uuid in instance_paths:
-            instances.append(self._load_instance(instance_uuid.split(".")[0]))
+            instance = self._load_instance(instance_uuid.split(".")[0])
+            # a file that cannot be read (e.g. truncated by a crash) costs that one instance only
+            if instance is not None:
+                instances.append(instance)
 
         return instances
 
